@@ -362,7 +362,7 @@ async fn proxy_tcp_connection_with_synack_internal(
         "[Proxy] proxy_tcp_connection_with_synack: Calling proxy_tcp_connection_data_forwarding for stream {}",
         stream_id
     );
-    proxy_tcp_connection_data_forwarding(stream, outbound, destination).await
+    proxy_tcp_connection_data_forwarding(stream, session, outbound, destination).await
 }
 
 /// Forward data between stream and outbound connection
@@ -371,6 +371,7 @@ async fn proxy_tcp_connection_with_synack_internal(
 /// Stream 内部的 reader 和 writer 已经分离，无锁竞争
 async fn proxy_tcp_connection_data_forwarding(
     stream: Arc<Stream>,
+    session: Arc<Session>,
     outbound: TcpStream,
     destination: SocksAddr,
 ) -> Result<()> {
@@ -388,7 +389,7 @@ async fn proxy_tcp_connection_data_forwarding(
     // ===== 关键改变：不再需要 Arc<Mutex<>> 包装！=====
     // 直接克隆 Arc<Stream> 用于两个任务
     let stream_for_read = Arc::clone(&stream);
-    let stream_for_write = Arc::clone(&stream);
+    let session_for_fin = Arc::clone(&session);
     let bytes_to_outbound = Arc::new(AtomicU64::new(0));
     let bytes_to_client = Arc::new(AtomicU64::new(0));
 
@@ -457,6 +458,10 @@ async fn proxy_tcp_connection_data_forwarding(
             );
         }
 
+        // The client has finished sending (FIN) or the session is gone: the target must see
+        // end-of-stream, after all the data.
+        let _ = outbound_write.shutdown().await;
+
         tracing::debug!(
             "[Proxy-Task1] Task completed for stream {} after {} iterations",
             stream_id,
@@ -502,9 +507,13 @@ async fn proxy_tcp_connection_data_forwarding(
                 }
             };
 
-            // 写入 stream（使用 send_data，完全无锁！）
+            // Written through the session, not the stream's channel, so that the FIN sent
+            // below cannot overtake data still queued for the forwarding task.
             use bytes::Bytes;
-            if let Err(e) = stream_for_write.send_data(Bytes::copy_from_slice(&buf[..n])) {
+            if let Err(e) = session_for_fin
+                .write_data_frame(stream_id, Bytes::copy_from_slice(&buf[..n]))
+                .await
+            {
                 tracing::error!(
                     "[Proxy-Task2] Stream write error (stream_id={}, iteration={}): {:?}",
                     stream_id,
@@ -522,6 +531,12 @@ async fn proxy_tcp_connection_data_forwarding(
                 iteration
             );
         }
+
+        // The target has finished sending: FIN after all the data, so that the client's
+        // application sees end-of-stream. The other direction keeps flowing.
+        let _ = session_for_fin
+            .write_control_frame(Frame::control(Command::Fin, stream_id))
+            .await;
 
         tracing::debug!(
             "[Proxy-Task2] Task completed for stream {} after {} iterations",
